@@ -220,6 +220,32 @@ func loadShFonts(f *corpus.File, k, nUniversal int) []*shFont {
 	return out
 }
 
+// shaperClass names the complex shaper HarfBuzz selects for the script (the unit of the domain rule)
+func shaperClass(sf *shFont, sc language.Script) string {
+	if sf.hasMorx {
+		return "aat"
+	}
+	switch sc {
+	case language.Arabic, language.Syriac, language.Mongolian, language.Nko, language.Adlam, language.Hanifi_Rohingya, language.Mandaic, language.Manichaean, language.Phags_Pa, language.Psalter_Pahlavi, language.Sogdian:
+		return "arabic"
+	case language.Hebrew:
+		return "hebrew"
+	case language.Hangul:
+		return "hangul"
+	case language.Thai, language.Lao:
+		return "thai"
+	case language.Devanagari, language.Bengali, language.Gujarati, language.Gurmukhi, language.Kannada, language.Malayalam, language.Oriya, language.Tamil, language.Telugu:
+		return "indic"
+	case language.Khmer:
+		return "khmer"
+	case language.Myanmar:
+		return "myanmar"
+	case language.Latin, language.Greek, language.Cyrillic, language.Common, language.Inherited, language.Unknown, language.Han, language.Hiragana, language.Katakana, language.Armenian, language.Georgian:
+		return "default"
+	}
+	return "use-or-default"
+}
+
 func textScript(t []rune) language.Script {
 	for _, r := range t {
 		if s := language.LookupScript(r); s.Strong() && s != language.Unknown {
